@@ -284,3 +284,18 @@ package wal
 //@ loop (*WAL).getEntriesFromFile#1
 //@   invariant[C09] ReaderInv(reader) && len(entries) == walSel
 //@   invariant[C09] forall i int :: 0 <= i && i < len(entries) ==> entries[i] != nil && entries[i].SequenceNumber >= minSequence
+
+// ---- C09: reading from a sequence number goes over EVERY log file of the directory, in directory (= age) order, none
+// left out by an early exit, and the current file last; what each file contributes is filtered by the sequence number
+// alone (getEntriesFromFile).  Ghost: visited = number of directory entries the loop has looked at.
+//@ ghost field (*WAL) visited int
+//@ func (*WAL).GetEntriesFrom
+//@   requires w != nil && w.writer != nil && w.file != nil
+//@   ensures[C09] true
+//@   ghost entry: w.visited = 0
+//@   check[C09] before call path/filepath.Base#2: 0 <= w.visited && w.visited < len(files) && arg_path == files[w.visited]
+//@   ghost after call path/filepath.Base#2: w.visited = w.visited + 1
+//@   check[C09] before call (*WAL).getEntriesFromFile#1: w.visited == len(files) && arg_filename == currentFilePath && arg_minSequence == sequenceNumber
+//@   check[C09] before call (*WAL).getEntriesFromFile#2: arg_minSequence == sequenceNumber && arg_filename == files[w.visited - 1]
+//@ loop (*WAL).GetEntriesFrom#1
+//@   invariant[C09] w.visited == idx && 0 <= idx && idx <= len(files)
